@@ -1228,8 +1228,12 @@ class ContactHandler(Messenger, dbus.service.Object):
         for (key, val) in self._sess_parameters.items():
             if val is None:
                 continue
-            if isinstance(val, int):
-                val = min(2 ** 31 - 1, val)
+            if isinstance(val, bool):
+                pass
+            elif isinstance(val, int):
+                # a bare int would be guessed as INT32 in the variant,
+                # which cannot hold the MRU values
+                val = dbus.UInt64(val)
             elif isinstance(val, ipaddress._BaseAddress):
                 val = str(val)
             params[key] = val
